@@ -1,7 +1,9 @@
 //! Shared pieces of the verification harness: fat sample types, result
 //! reporting, small helpers.
 pub mod big;
+pub mod graphs;
 pub mod report;
+pub mod specs;
 
 pub use big::*;
 pub use report::*;
@@ -43,6 +45,11 @@ pub fn quiet_panics() {
             eprintln!("machinery panic: {info}");
         }
     }));
+}
+
+/// Are we inside `catch()`?
+pub fn in_catch() -> bool {
+    IN_CATCH.with(|c| c.get()) > 0
 }
 
 thread_local! {
